@@ -1041,9 +1041,9 @@ ASSUMPTIONS = [
 
 def tier_config(tier):
     if tier == 'quick':
-        return {'classes': [('faultfree', 2500), ('faulty', 3500), ('realdisk', 200)], 'chunk': 50, 'selftest_n': 300,
+        return {'classes': [('faultfree', 4000), ('faulty', 6000), ('realdisk', 300)], 'chunk': 50, 'selftest_n': 300,
                 'sample': 1, 'hang_s': 600}
-    return {'classes': [('faultfree', 4000), ('faulty', 6000), ('realdisk', 400), ('long', 600)], 'chunk': 50, 'selftest_n': 600,
+    return {'classes': [('faultfree', 6000), ('faulty', 9000), ('realdisk', 600), ('long', 900)], 'chunk': 50, 'selftest_n': 600,
             'sample': 1, 'hang_s': 900, 'repeat': True, 'budget_s': 600}
 
 
